@@ -241,11 +241,13 @@ def cleanup_scenarios(root):
         ages = [0, 1, 29, 31, 45, 400]
         files = []
         now = time.time()
-        for i, age in enumerate(ages):
+        # "in use" is decided by the last ACCESS: every access age is combined with a fresh and with a very old
+        # modification time (an entry written long ago and loaded yesterday is in use)
+        for i, (age, mage) in enumerate([(a, m) for a in ages for m in (0, 400)]):
             f = os.path.join(vdir, 'entry%d.pkl' % i)
             shutil.copy(pf, f)
             t = now - age * 24 * 3600 - 60
-            os.utime(f, (t, now))
+            os.utime(f, (t, now - mage * 24 * 3600))
             files.append((f, age))
         os.utime(pf, (now, now))
         lock = os.path.join(str(lab.cdir), 'PARSO-CACHE-LOCK')
@@ -258,7 +260,7 @@ def cleanup_scenarios(root):
         evs.append(ev('Cleanup', files=[{'age': age, 'gone': not os.path.exists(f)} for f, age in files] +
                       [{'age': 0, 'gone': not os.path.exists(pf)}]))
         evs += lab.call(must='disk')
-        traces.append({'id': 20001, 'init': lab.content, 'events': evs, 'kind': 'cleanup', 'hist': ['cleanup', ages]})
+        traces.append({'id': 20001, 'init': lab.content, 'events': evs, 'kind': 'cleanup', 'hist': ['cleanup', ages, 'x mtime age (0, 400)']})
         # a second save on the same day must not clean again (lock file): nothing may disappear
         for f, age in files:
             if not os.path.exists(f):
